@@ -95,8 +95,14 @@ class Releases(OntologyReleaseService):
 
 
 class FileProxy:
+    """the file being written.  Two ways a write can fail: at write() (plan ('write', k): k bytes reach the file,
+    then ENOSPC) or - the usual way for a payload smaller than the io buffer - only when the buffer is flushed at
+    close() (plan ('close', k)).  close() is a gate of its own name: a kill can land between write() and close(),
+    when the data is still in the buffer; it is not a step of the model (the model's write step is write+close)."""
     def __init__(self, fh):
         self._fh = fh
+        self._held = None
+        self._closed = False
 
     def write(self, data):
         gate('write')
@@ -105,13 +111,31 @@ class FileProxy:
             self._fh.write(data[:plan[1]])
             self._fh.flush()
             raise Fault('no space left on device')
+        if isinstance(plan, (list, tuple)) and plan[0] == 'close':
+            self._held = (self._held or b'') + bytes(data)      # stays in the buffer
+            return len(data)
         return self._fh.write(data)
+
+    def close(self):
+        if self._closed:
+            return
+        self._closed = True
+        gate('close')
+        plan = CTX.plan
+        if isinstance(plan, (list, tuple)) and plan[0] == 'close' and self._held is not None:
+            self._fh.write(self._held[:plan[1]])
+            try:
+                self._fh.close()
+            finally:
+                raise Fault('no space left on device (at flush)')
+        return self._fh.close()
 
     def __enter__(self):
         return self
 
     def __exit__(self, *a):
-        return self._fh.__exit__(*a)
+        self.close()
+        return False
 
     def __getattr__(self, n):
         return getattr(self._fh, n)
@@ -288,10 +312,15 @@ def run_history(payload, case, idx):
 
 
 class KillGate:
+    """kills the process before its k-th boundary; k = 'close' kills between write() and close()"""
     def __init__(self, k):
         self.k, self.n = k, 0
 
     def __call__(self, name):
+        if name == 'close':
+            if self.k == 'close':
+                os._exit(17)
+            return
         self.n += 1
         if self.n == self.k:
             os._exit(17)        # no flush, no cleanup: like SIGKILL
@@ -338,7 +367,7 @@ class StepGate:
     free = False
 
     def __call__(self, name):
-        if self.free:
+        if self.free or name == 'close':        # close() is not a scheduling point of the model
             return
         self.arrived.set()
         self.go.acquire()
